@@ -13,9 +13,12 @@
   expression node, literal and pattern, EXCEPT the stated identifications — annotations and record-literal
   entries as key ↦ value maps (listed by key, a later duplicate wins), a literal decimal / ip VALUE identified
   with the constructor call JSON writes for it, patterns re-built by `NewPattern`, source position dropped.
-  It fails for a `like` with a zero-component pattern (`C09_like_empty_pattern_counterexample`), for calls of
-  unknown functions (`C09_unknown_function_counterexample`, outside the JSON format by design) and for literal
-  values outside C13's fragment.  The `_partial` theorems restrict to `p.JsonRenderable` (decidable).
+  It fails for calls of unknown functions (`C09_unknown_function_counterexample`, outside the JSON format by design),
+  for a method-style call without its receiver (`C09_method_without_receiver_counterexample`: programmatic only, the
+  JSON format has the receiver as first argument) and for literal values outside C13's fragment.  The `_partial`
+  theorems restrict to `p.JsonRenderable` (decidable).  A `like` with a zero-component pattern (`NewPattern()`) is
+  INSIDE the fragment since `fix: encode the empty like-pattern as JSON that can be decoded again`
+  (`C09_like_empty_pattern_roundtrip`; was `C09_like_empty_pattern_counterexample`).
 
   `C09_encodings_authorize_alike_partial`: the decoded policy is satisfied exactly when the original is, in every
   environment — proved on the fragment `JsonSemNormal` (record literals already key-sorted, patterns already in
@@ -94,16 +97,33 @@ example : (normP c09Example).annotations = [("a", "b"), ("id", "x")] := by decid
 
 /-! ### where the full statement fails -/
 
-/-- a `like` whose pattern has no components is encoded as `"pattern": []`, which the decoder refuses -/
-theorem C09_like_empty_pattern_counterexample :
-    ∃ p : Policy, fromJ (toJ p) = .error .reject :=
-  ⟨{ effect := .permit, conditions := [(true, .like (.lit (.str "a")) [])] }, isRejectP_eq (by decide +kernel)⟩
+/-- regression (was `C09_like_empty_pattern_counterexample`: `"pattern":[]` was written and refused): a `like` whose
+    pattern has no components is written as the empty literal, decodes, and comes back as `NewPattern("")` -/
+theorem C09_like_empty_pattern_roundtrip :
+    fromJ (toJ { effect := .permit, conditions := [(true, .like (.lit (.str "a")) [])] }) =
+      .ok { effect := .permit, conditions := [(true, .like (.lit (.str "a")) [⟨false, []⟩])] } := by
+  rw [json_roundtrip _ (by decide +kernel)]
+  simp [normP, normE, normPattern, patComps, newPattern, newPatternStep, sortKV]
+
+/-- ... and the two patterns match the same strings (only the empty one) -/
+example : ∀ bs : List UInt8, matchComps [] bs = matchComps [⟨false, []⟩] bs := by
+  intro bs; cases bs <;> simp [matchComps, matchChunk]
+
+/-- the decoder itself still refuses `"pattern": []` (it is never written any more) -/
+example : fromJ (condDoc (.obj [("like", .obj [("left", .obj [("Value", .str "a")]), ("pattern", .arr [])])])) = .error .reject :=
+  isRejectP_eq (by decide +kernel)
 
 /-- a call of a name that is not an extension function is written as `{name: [...]}` and refused on decoding
     (the JSON format has no other way to carry it) -/
 theorem C09_unknown_function_counterexample :
     ∃ p : Policy, fromJ (toJ p) = .error .reject :=
   ⟨{ effect := .permit, conditions := [(true, .call "nosuchfn" [.lit (.long 1)])] }, isRejectP_eq (by decide +kernel)⟩
+
+/-- a method-style call without its receiver (only constructible programmatically: `ast.ExtensionCall("isIpv4")`) is
+    written as `{"isIpv4": []}` and refused on decoding: the JSON format has the receiver as first argument -/
+theorem C09_method_without_receiver_counterexample :
+    ∃ p : Policy, fromJ (toJ p) = .error .reject :=
+  ⟨{ effect := .permit, conditions := [(true, .call "isIpv4" [])] }, isRejectP_eq (by decide +kernel)⟩
 
 /-! ### the decoder's two special rules -/
 
@@ -121,9 +141,22 @@ theorem C09_known_field_beats_extension :
     isCondP (fromJ (condDoc (.obj [("Set", .arr []), ("decimal", .arr [.obj [("Value", .str "1.0")]])])))
         (fun e => match e with | .set [] => true | _ => false) = true := by decide +kernel
 
-/-- C10 overlap: a `null` record entry is a nil `*nodeJSON` that `ToNode` dereferences -/
-theorem C09_decoder_panic_counterexample :
-    fromJ (condDoc (.obj [("Record", .obj [("a", .null)])])) = .error .panic :=
-  isPanicP_eq (by decide +kernel)
+/-! ### no panic branch is left in the decoder (C10 overlap) -/
+
+/-- **Phase 2 of the decoder (`ToNode`) never panics**: whatever `json.Unmarshal` put into the `nodeJSON` structs —
+    nil record entries, empty nodes, any function name with any number of arguments — the result is an
+    expression or an error.  (Was `C09_decoder_panic_counterexample`.) -/
+theorem C09_tonode_never_panics (n : NJ) : nodeToExpr n ≠ .error .panic := nodeToExpr_noPanic n
+
+/-- regression: a `null` record entry is refused with an error (was: nil `*nodeJSON` dereferenced, `.panic`) -/
+example : fromJ (condDoc (.obj [("Record", .obj [("a", .null)])])) = .error .reject :=
+  isRejectP_eq (by decide +kernel)
+
+/-- regression: a `null` policy in a policy set is refused with an error (was: nil `*Policy` compiled, `.panic`) -/
+example : (match setFromJ (.obj [("staticPolicies", .obj [("a", .null)])]) with | .error .reject => true | _ => false) = true := by
+  decide +kernel
+
+/-- regression: `{"lessThan":[]}` is refused (was: accepted, and `MarshalCedar` of the result panicked) -/
+example : fromJ (condDoc (.obj [("lessThan", .arr [])])) = .error .reject := isRejectP_eq (by decide +kernel)
 
 end CedarGo
